@@ -75,11 +75,11 @@ def render_line(can_id: int, data: bytes, fmt: str, t: float, style: int = 0) ->
         ident = f"{can_id:03X}" if can_id <= 0x7FF else f"{can_id:08X}"
         body = " ".join(f"{b:02X}" for b in data)
         lead = ("  ", " ", "", "  ")[style % 4]
-        iface = ("can0", "vcan0", "can1", "slcan0")[style % 4]
+        iface = ("can0", "vcan0", "can-fd0", "slcan0", "can1", "mcp-can_2", "can0", "vcan_diag")[style % 8]
         return f"{lead}{iface}  {ident}   [{len(data)}]  {body}"
     ident = f"{can_id:03X}" if can_id <= 0x7FF else f"{can_id:08X}"
     hexdata = data.hex().upper() if style % 2 == 0 else data.hex()
-    iface = ("can0", "vcan0")[style % 2]
+    iface = ("can0", "vcan0", "can-fd0", "mcp-can_2")[style % 4]
     if fmt == "l":
         return f"({t:.6f}) {iface} {ident}#{hexdata}"
     if fmt == "f":
@@ -303,7 +303,7 @@ def shut(bus) -> None:
 
 def feed_direct(frames: Sequence[Tuple[int, bytes]], kind: str, monitored: List[int],
                 tx_ids: List[int], data_type: str = "bytes", padding: int = 0,
-                restarts: Sequence[int] = ()) -> EntryResult:
+                restarts: Sequence[int] = (), consume: str = "all") -> EntryResult:
     """decode_rx_frame called frame by frame. `restarts`: frame indices before which the
     node under test crashes and restarts (a fresh state machine, no durable state)."""
     import can
@@ -326,8 +326,19 @@ def feed_direct(frames: Sequence[Tuple[int, bytes]], kind: str, monitored: List[
                     arg = bytes(data)
                 res.fed += 1
                 try:
-                    for rid, payload in sm.decode_rx_frame(fid, arg):
-                        res.reports.append((k, rid, bytes(payload)))
+                    if consume == "first":
+                        # a consumer that takes the (at most one) telegram of a frame and stops iterating:
+                        # the generator is closed at its yield, code after the yield never runs
+                        it = iter(sm.decode_rx_frame(fid, arg))
+                        first = next(it, None)
+                        if first is not None:
+                            res.reports.append((k, first[0], bytes(first[1])))
+                        close = getattr(it, "close", None)
+                        if close is not None:
+                            close()
+                    else:
+                        for rid, payload in sm.decode_rx_frame(fid, arg):
+                            res.reports.append((k, rid, bytes(payload)))
                 except Exception as e:  # noqa: BLE001 - the oracle judges it
                     res.raised = (k, e)
                     break
